@@ -15,7 +15,8 @@ CHECKS = {
         text="The port and the Decay0 2020-04-20 Fortran reference (compiled from the file in /repo with gfortran) are run "
              "side by side on the same deviate tape for every one of the 61 reference nuclides: millions of tapes, i.i.d. and "
              "steered (each of the first <=64 cells pinned over a log-tail/quantile grid and at branching thresholds harvested "
-             "from both sources, +-1e-9; pairs of pinned cells); the comparator demands equal draw counts, species, momenta "
+             "from both sources, +-1e-9; pairs of pinned cells; a frontier search over pinned cells guided by new branch signatures that "
+             "reaches rare branches of rare branches); the comparator demands equal draw counts, species, momenta "
              "(1e-9) and running-sum times, with only the documented admissible differences. Building blocks (fermi, beta*, "
              "nucltransK*, PbAtShell, pair, plog69) are compared function by function on random parameters. "
              "Decides the property for the tapes driven; reports distinct reference branch signatures reached.",
@@ -32,7 +33,8 @@ CHECKS = {
         text="Every (isotope, level 0..16, mode 1..20) cell, plus seeded energy windows on the window-capable modes and seeded "
              "NMEs for mode 18, is initialised on both the port and the Fortran reference: ier, toallevents, clamped range, level "
              "energy and initialisation draws must agree; accepted cells then generate events on shared deviate tapes (i.i.d. and "
-             "with each of the first 12 cells pinned over a log-tail/quantile grid) compared particle by particle (primary leptons/"
+             "with each of the first 12 cells pinned over a log-tail/quantile grid, and a signature-guided frontier search through the "
+             "daughter's de-excitation cascade) compared particle by particle (primary leptons/"
              "X-rays, de-excitation cascade, follow-up alpha chains), and the porcelain generator must reproduce the plumbing bit "
              "for bit. Quick samples 25% of the quadrature-heavy modes, thorough runs all of them.",
         note="Same trusted base as C01 (shared CERNLIB kernels, pi widening, zero-initialised reference locals, port fermi linked "
@@ -45,7 +47,7 @@ CHECKS = {
         script="checks/c03.py",
         level="exploration",
         text="Every (isotope, level, mode) the reference rules accept, with random and nested energy windows, is generated through "
-             "decay0_generator on i.i.d. and steered tapes; a monitor sums the visible energy of every event and compares it with "
+             "decay0_generator on i.i.d. and steered tapes (incl. the signature-guided frontier search through the cascades); a monitor sums the visible energy of every event and compares it with "
              "a Q/EK/level table parsed at check time from the reference source (cross-checked with the README level list), "
              "checks the lepton energy sum against the window, and toallevents >= 1, == 1 on the full range and monotone along "
              "nested windows. The histogram of E_vis - Q is published (observed: only -1, 0, +1 keV).",
@@ -59,10 +61,12 @@ CHECKS = {
         level="exploration",
         text="All 69 background names and all accepted double-beta configurations (plus windows) are shot on hostile deviate tapes: "
              "each of the first <=64 cells pinned to 1e-12, 1-1e-12, 1e-300, neighbouring cells in opposite tails, grids, branching "
-             "thresholds, whole prefixes in one tail; every event passes the well-formedness monitor and the draw counter bounds the "
-             "work per shot (cap 2e6, reported max and 99.9 percentile).",
-        note="Bounded work is decided in deviates, not seconds; a window holding < 1/300 of the spectrum is reported but not judged "
-             "(rejection acceptance legitimately tiny).",
+             "thresholds, whole prefixes in one tail, a signature-guided frontier search over pinned cells, window ladders climbing to "
+             "the end-point; every event passes the well-formedness monitor and the draw counter bounds the work per shot (hard cap 2e6, "
+             "work bound 20000; reported max and 99.9 percentile). The reach of the workload inside the library (gcov build: lines, branch "
+             "outcomes, functions never called) is measured and stored in the evidence.",
+        note="Bounded work is decided in deviates, not seconds; on mode 10 (one positron rejected under the maximum of the whole spectrum, as "
+             "in the reference) a window holding < 1/300 of the spectrum is reported but not judged.",
         technique="runtime assertion monitor on every generated event + logical-clock (draw count) bound, steered inputs",
         design="DESIGN.md section 2, C04",
     ),
@@ -156,7 +160,9 @@ CHECKS = {
     "C12": dict(
         script="checks/c12.py",
         level="exploration",
-        text="Three monitors. (1) ThreadSanitizer stress: fresh processes x 2/4/16 threads released by a barrier, each with its own generators "
+        text="Four monitors. (0) ThreadSanitizer sweep: 2 or 4 threads each walk all 69 background names (branch thresholds steered) and a "
+             "sample of double-beta cells in different orders, so that any static object the library writes while generating is written by several "
+             "threads; streams from equal tapes must agree across threads. (1) ThreadSanitizer stress: fresh processes x 2/4/16 threads released by a barrier, each with its own generators "
              "(quadrature-heavy modes incl. one whose QNG really returns GSL_ETOL, background, gA), tapes and events; the harness interposes "
              "gsl_set_error_handler(_off)/gsl_integration_qng so that the accesses libgsl makes to its process-wide handler become visible "
              "to TSan through a shadow variable. (2) Deterministic enumeration of every interleaving of the four schedule points (hook in gauss.cc) "
